@@ -70,7 +70,8 @@ fn main() {
             std::io::stdout().flush().ok();
             match r {
                 Ok(Ok(vals)) => {
-                    let s: Vec<String> = vals.iter().map(|v| format!("{}", v)).collect();
+                    // one record per line: a value whose text contains a line break (hash maps) must not break the protocol
+                    let s: Vec<String> = vals.iter().map(|v| format!("{}", v).replace('\n', "\\n")).collect();
                     println!("\n\u{1e}V {}", s.join("\u{1f}"));
                 }
                 Ok(Err(e)) => {
